@@ -454,6 +454,8 @@ for _id, _prop, _rule, _desc, _eb in [
     ("c07-runs-reset-at-refill", "C07", "R07.4", "read_int in runs (C07i/1) that restarts the value at every refill: wrong only for an argument split across refills", False),
     ("c07-fast-path-little-endian", "C07", "R07.4", "read_int fast path (C07i/1) that assembles the buffered argument least significant byte first", False),
     ("c07-switch-case-swapped", "C07", "R07.4", "read_int per-width switch (C20i/3) whose 2-byte case swaps the bytes", False),
+    ("c12-worker2-clear-before-export", "C12", "R12.4", "exporter flush path over two workers (C12k/2) whose flush_block clears the block before exporting it", False),
+    ("c12-worker2-no-rearm", "C12", "R12.1", "exporter flush path over two workers (C12k/2) where buffer_mm exports without clearing and re-arming", False),
     ("c14-result-unchecked", "C14", "R14.3", "compressor step reporting through a result struct (C14i/2) whose failure flag write() ignores", False),
     ("c14-result-ok-on-error", "C14", "R14.3", "compressor step reporting through a result struct (C14i/2) that says ok for a refused code", False),
     ("c06-flush-guard-inverted", "C06", "R06.4", "flush_buffer writes only when nothing is staged", False),
